@@ -27,6 +27,29 @@ class LinearCache:
         self.inverse = None
         self.logabsdet = None
 
+    def _entries(self):
+        return [
+            entry
+            for entry in (self.weight, self.inverse, self.logabsdet)
+            if entry is not None
+        ]
+
+    def drop_unusable(self):
+        """Drops entries created in inference mode when autograd may record again."""
+        if not torch.is_inference_mode_enabled() and any(
+            entry.is_inference() for entry in self._entries()
+        ):
+            self.invalidate()
+
+    def drop_graph_attached(self):
+        """Drops entries that are part of an autograd graph.
+
+        Such entries can be used for the current call, but keeping them would make the next
+        call backpropagate through a graph whose buffers may already have been freed.
+        """
+        if any(entry.grad_fn is not None for entry in self._entries()):
+            self.invalidate()
+
 
 class Linear(Transform):
     """Abstract base class for linear transforms that parameterize a weight matrix."""
@@ -46,13 +69,16 @@ class Linear(Transform):
     def forward(self, inputs, context=None):
         if not self.training and self.using_cache:
             self._check_forward_cache()
-            outputs = F.linear(inputs, self.cache.weight, self.bias)
-            logabsdet = self.cache.logabsdet * outputs.new_ones(outputs.shape[0])
+            weight, logabsdet = self.cache.weight, self.cache.logabsdet
+            self.cache.drop_graph_attached()
+            outputs = F.linear(inputs, weight, self.bias)
+            logabsdet = logabsdet * outputs.new_ones(outputs.shape[0])
             return outputs, logabsdet
         else:
             return self.forward_no_cache(inputs)
 
     def _check_forward_cache(self):
+        self.cache.drop_unusable()
         if self.cache.weight is None and self.cache.logabsdet is None:
             self.cache.weight, self.cache.logabsdet = self.weight_and_logabsdet()
 
@@ -65,13 +91,16 @@ class Linear(Transform):
     def inverse(self, inputs, context=None):
         if not self.training and self.using_cache:
             self._check_inverse_cache()
-            outputs = F.linear(inputs - self.bias, self.cache.inverse)
-            logabsdet = (-self.cache.logabsdet) * outputs.new_ones(outputs.shape[0])
+            weight_inverse, logabsdet = self.cache.inverse, self.cache.logabsdet
+            self.cache.drop_graph_attached()
+            outputs = F.linear(inputs - self.bias, weight_inverse)
+            logabsdet = (-logabsdet) * outputs.new_ones(outputs.shape[0])
             return outputs, logabsdet
         else:
             return self.inverse_no_cache(inputs)
 
     def _check_inverse_cache(self):
+        self.cache.drop_unusable()
         if self.cache.inverse is None and self.cache.logabsdet is None:
             (
                 self.cache.inverse,
